@@ -130,6 +130,23 @@ fn main() {
             let tier = args[4].as_str();
             let outdir = args[5].as_str();
             std::fs::create_dir_all(outdir).unwrap();
+            // a logger is installed and wants everything (C13 brings its own): what the library says about its work
+            // has no effect on the work (seed C19-seed13: a `debug!` whose argument reads the connection)
+            if prop != "C13" {
+                struct Quiet;
+                impl log::Log for Quiet {
+                    fn enabled(&self, _: &log::Metadata) -> bool {
+                        true
+                    }
+                    fn log(&self, r: &log::Record) {
+                        let _ = format!("{}", r.args());
+                    }
+                    fn flush(&self) {}
+                }
+                static QUIET: Quiet = Quiet;
+                let _ = log::set_logger(&QUIET);
+                log::set_max_level(log::LevelFilter::Trace);
+            }
             let mut sink = case::Sink::new(&format!("{}/cases.tsv", outdir));
             sink.only = args.get(6).and_then(|s| s.parse().ok());
             match prop {
